@@ -56,7 +56,7 @@ def self_description(repo, chk):
     t = term_of(fn, d.get('duplicate_indices'), inline=True) if d.get('duplicate_indices') is not None else None
     forms = [E(f'numpy.arange({w}, {w} + {k}, 1)'), E(f'numpy.arange({w}, {w} + {k})'), E(f'list(range({w}, {w} + {k}))'), E(f'range({w}, {w} + {k})')]
     chk.expect(t in forms, 'C20.1a', 'R6', fn.site(c) if c else fn.site(), f'duplicate_indices = {show(t)[:120] if t else None}', 'k appended duplicates -> indices w .. w+k-1 (k of them)',
-               f'generate_duplicates appends len(feature_indices) columns but records {show(t)[:120] if t else "nothing"}: the self-description must list exactly arange(w, w + k)')
+               f'generate_duplicates appends len(feature_indices) columns but records {show(t)[:120] if t else "nothing"}: the self-description must list exactly arange(w, w + k)', soft=True)
     chk.expect(d.get('feature_indices') is not None and ast.unparse(d['feature_indices']) == 'feature_indices', 'C20.1b', 'R6', fn.site(c) if c else fn.site(), 'feature_indices recorded', 'source indices recorded', 'source indices must be recorded')
     # correlated
     fn = repo.func(CC, f'{CLS}.generate_correlated')
@@ -69,7 +69,7 @@ def self_description(repo, chk):
         par = parents(fn.node)
         g = par.get(defs[0])
         ok = isinstance(g, ast.If) and term_of(fn, g.test, inline=False) in (E(f'1 < {k}'), E(f'{k} > 1'))
-    chk.expect(ok, 'C20.1c', 'R6', fn.site(c) if c else fn.site(), 'correlated_indices = ' + ' | '.join(show(t)[:60] for t in ts), 'k correlated columns -> arange(w, w+k) (scalar w for a single one)', 'generate_correlated must record arange(w, w + k) (or the scalar w for one column)')
+    chk.expect(ok, 'C20.1c', 'R6', fn.site(c) if c else fn.site(), 'correlated_indices = ' + ' | '.join(show(t)[:60] for t in ts), 'k correlated columns -> arange(w, w+k) (scalar w for a single one)', 'generate_correlated must record arange(w, w + k) (or the scalar w for one column)', soft=True)
     chk.expect(d.get('correlation_factor') is not None and ast.unparse(d['correlation_factor']) == 'r', 'C20.1d', 'R6', fn.site(c) if c else fn.site(), 'correlation_factor = r', 'r recorded', 'the correlation factor must be recorded')
     # combinations
     fn = repo.func(CC, f'{CLS}.generate_combinations')
@@ -153,8 +153,11 @@ def correlated(repo, chk):
             if name in env and env[name] != want_env[name]:
                 why = f' (first difference at `{name}`: {show(env[name])[:140]})'
                 break
+    wrong_angle = [c for c in calls(fn) if (m.dotted(c.func) or '') in ('numpy.arcsin', 'numpy.arctan', 'math.asin', 'math.atan', 'numpy.arccosh')]
+    for c in wrong_angle:
+        chk.bad('C20.3b', 'R8', fn.site(c), ast.unparse(c)[:100], 'the mixing coefficient must be 1/tan(arccos(r)) (the angle whose cosine is r): with another inverse function the generated feature does not have correlation r with its source')
     chk.expect(ok, 'C20.3b', 'R15', fn.site(app[0]) if app else fn.site(lp), f'{appended} = Y[:, 1] + (1 / np.tan(np.arccos(r))) * Y[:, 0]', 'correlated feature = unit(orthogonalised noise) + cot(arccos r) * unit(centred source): Pearson correlation r (sign included)',
-               'the correlated feature must be unit(orthogonalised noise) + (1/tan(arccos(r))) * unit(centred source); a different coefficient (e.g. one that loses the sign of r) does not give correlation r' + why)
+               'the correlated feature must be unit(orthogonalised noise) + (1/tan(arccos(r))) * unit(centred source); a different coefficient (e.g. one that loses the sign of r) does not give correlation r' + why, soft=True)
     r = returns(fn)
     lst = app[0].func.value.id if app and isinstance(app[0].func.value, ast.Name) else 'correlated_features'
     tr = [n for n in own_nodes(fn.node) if isinstance(n, ast.Assign) and isinstance(n.targets[0], ast.Name) and n.targets[0].id == lst and n.lineno > lp.end_lineno]
@@ -169,15 +172,25 @@ def labels(repo, chk):
     ok_p = len(pcs) == 3 and all(ast.unparse(c.args[0]) == 'decision_boundary' for c in pcs)
     chk.expect(ok_p, 'C20.4a', 'R15', fn.site(pcs[0]) if pcs else fn.site(), f'{len(pcs)} np.percentile(decision_boundary, ...) cut-point computations', 'cut points are percentiles of the decision values', 'label cut points must be np.percentile of the decision values')
     steps = []
+    # names that hold the decision values: bound to <decision function>(X)
+    dec_names = {n.targets[0].id for n in own_nodes(fn.node) if isinstance(n, ast.Assign) and isinstance(n.targets[0], ast.Name) and isinstance(n.value, ast.Call) and isinstance(n.value.func, ast.Name)
+                 and n.value.func.id in fn.params and len(n.value.args) == 1}
+    label_names = {n.targets[0].id for n in own_nodes(fn.node) if isinstance(n, ast.Assign) and isinstance(n.targets[0], ast.Name) and isinstance(n.value, ast.Call) and (m.dotted(n.value.func) or '') in ('numpy.zeros_like', 'numpy.zeros')}
+
+    def is_indicator(v):
+        """<decision values> > <cut point>   or   np.where(<decision values> > <cut point>, 1, 0)"""
+        if isinstance(v, ast.Call) and m.dotted(v.func) == 'numpy.where' and len(v.args) == 3 and isinstance(v.args[1], ast.Constant) and v.args[1].value == 1 and isinstance(v.args[2], ast.Constant) and v.args[2].value == 0:
+            v = v.args[0]
+        return isinstance(v, ast.Compare) and len(v.ops) == 1 and ((isinstance(v.ops[0], ast.Gt) and isinstance(v.left, ast.Name) and v.left.id in dec_names and isinstance(v.comparators[0], (ast.Name, ast.Subscript)))
+                                                                 or (isinstance(v.ops[0], ast.Lt) and isinstance(v.comparators[0], ast.Name) and v.comparators[0].id in dec_names and isinstance(v.left, (ast.Name, ast.Subscript))))
     for n in own_nodes(fn.node):
-        if isinstance(n, ast.AugAssign) and isinstance(n.target, ast.Name) and n.target.id == 'y' and isinstance(n.op, ast.Add):
-            steps.append((n, ast.unparse(n.value)))
-        if isinstance(n, ast.Assign) and isinstance(n.targets[0], ast.Name) and n.targets[0].id == 'y' and isinstance(n.value, ast.Call) and m.dotted(n.value.func) == 'numpy.where':
-            steps.append((n, ast.unparse(n.value)))
-    good = {'decision_boundary > p_point', 'np.where(decision_boundary > p_point, 1, 0)'}
-    bad = [s for s in steps if s[1] not in good]
+        if isinstance(n, ast.AugAssign) and isinstance(n.target, ast.Name) and n.target.id in label_names and isinstance(n.op, ast.Add):
+            steps.append((n, ast.unparse(n.value), is_indicator(n.value)))
+        if isinstance(n, ast.Assign) and isinstance(n.targets[0], ast.Name) and isinstance(n.value, ast.Call) and m.dotted(n.value.func) == 'numpy.where' and len(n.value.args) == 3 and any(isinstance(x, ast.Name) and x.id in dec_names for x in ast.walk(n.value.args[0])):
+            steps.append((n, ast.unparse(n.value), is_indicator(n.value)))
+    bad = [s_ for s_ in steps if not s_[2]]
     chk.expect(len(steps) == 3 and not bad, 'C20.4b', 'R15', fn.site(bad[0][0]) if bad else fn.site(), '; '.join(s[1] for s in steps), 'label = number of cut points the decision value exceeds (monotone step function)',
-               f'labels must be sums of indicators (decision > cut point); found {[s[1] for s in bad] or len(steps)}')
+               f'labels must be sums of indicators (decision > cut point); found {[s[1] for s in bad] or len(steps)}', soft=True)
     dfs = {ast.unparse(n.value) for n in own_nodes(fn.node) if isinstance(n, ast.Assign) and isinstance(n.value, ast.Lambda)}
     ok_d = 'lambda x: np.sum(2 * x + 3, axis=1)' in dfs and 'lambda x: np.sum(k * np.sin(x) + k * np.cos(x), axis=1)' in dfs
     chk.expect(ok_d, 'C20.4c', 'R15', fn.site(), 'default decision functions', 'linear / nonlinear decision functions as documented', 'default decision functions changed')
@@ -233,7 +246,27 @@ def noise(repo, chk):
         if isinstance(s, ast.Assign) and len(s.targets) == 1 and isinstance(s.targets[0], ast.Name):
             v = s.value
             name = s.targets[0].id
-            if isinstance(v, ast.Attribute) and v.attr == 'T' and isinstance(v.value, ast.Name) and v.value.id in own:
+            def status_of(e):
+                """ownership of an array expression: transposes and slices are views; fancy indexing by an index array and copies are fresh"""
+                if isinstance(e, ast.Name):
+                    return own.get(e.id)
+                if isinstance(e, ast.Attribute) and e.attr == 'T':
+                    return status_of(e.value)
+                if isinstance(e, ast.Call) and isinstance(e.func, ast.Attribute) and e.func.attr in ('transpose', 'view', 'reshape', 'ravel') :
+                    return status_of(e.func.value)
+                if isinstance(e, ast.Subscript) and isinstance(e.value, (ast.Name, ast.Attribute, ast.Subscript, ast.Call)):
+                    inner = status_of(e.value) if not isinstance(e.value, ast.Name) else own.get(e.value.id)
+                    if isinstance(e.slice, ast.Name) and e.slice.id in arrays_idx:
+                        return 'fresh' if inner is not None else None
+                    return inner
+                st0 = _fresh(e, X, m)
+                if st0.startswith('fresh-if-array:'):
+                    return 'fresh' if st0.split(':')[1] in arrays_idx else 'alias'
+                return st0 if st0 != 'unknown' else None
+            composed = isinstance(v, ast.Attribute) and v.attr == 'T' and not isinstance(v.value, ast.Name)
+            if composed and status_of(v) is not None:
+                setown(name, status_of(v), s)
+            elif isinstance(v, ast.Attribute) and v.attr == 'T' and isinstance(v.value, ast.Name) and v.value.id in own:
                 setown(name, own[v.value.id], s)
             elif isinstance(v, ast.Subscript) and isinstance(v.value, ast.Name) and v.value.id in own and v.value.id != X:
                 setown(name, own[v.value.id] if not isinstance(v.slice, ast.Name) else 'fresh', s)
@@ -266,15 +299,38 @@ def noise(repo, chk):
             and {type(v.args[0].left), type(v.args[0].right)} == {ast.Name} and {v.args[0].left.id, v.args[0].right.id} & widths and pname in (v.args[0].left.id, v.args[0].right.id)
     ks = [n for n in own_nodes(fn.node) if isinstance(n, ast.Assign) and isinstance(n.targets[0], ast.Name) and _is_k(n.value)]
     knames = {k.targets[0].id for k in ks}
-    chk.expect(len(ks) == 2, 'C20.5b', 'R15', fn.site(ks[0]) if ks else fn.site(), f'{[ast.unparse(k) for k in ks]}', 'number of noisy cells per feature is floor(n * p)', 'the number of altered cells per feature must be int(n * p) for both noise types')
+    chk.expect(len(ks) == 2, 'C20.5b', 'R15', fn.site(ks[0]) if ks else fn.site(), f'{[ast.unparse(k) for k in ks]}', 'number of noisy cells per feature is floor(n * p)', 'the number of altered cells per feature must be int(n * p) for both noise types', soft=True)
     ch = [c for c in calls(fn, dotted='numpy.random.choice') if len(c.args) >= 2 and isinstance(c.args[0], ast.Name) and c.args[0].id in widths]
     ok_ch = len(ch) == 2 and all(any(k.arg == 'replace' and isinstance(k.value, ast.Constant) and k.value.value is False for k in c.keywords) and ast.unparse(c.args[1]) in knames for c in ch)
-    chk.expect(ok_ch, 'C20.5c', 'R15', fn.site(ch[0]) if ch else fn.site(), '; '.join(ast.unparse(c) for c in ch), 'cells are chosen without replacement (distinct cells: exactly k markers, at most k changes)', 'cells must be chosen by np.random.choice(n, k, replace=False)')
+    chk.expect(ok_ch, 'C20.5c', 'R15', fn.site(ch[0]) if ch else fn.site(), '; '.join(ast.unparse(c) for c in ch), 'cells are chosen without replacement (distinct cells: exactly k markers, at most k changes)', 'cells must be chosen by np.random.choice(n, k, replace=False)', soft=True)
     # replacement values originate from np.unique of the same feature
     rowvars = {l.target.id for l in own_nodes(fn.node) if isinstance(l, ast.For) and isinstance(l.target, ast.Name) and isinstance(l.iter, ast.Name) and l.iter.id in own}
     us = [c for c in calls(fn, dotted='numpy.unique') if c.args and isinstance(c.args[0], ast.Subscript) and isinstance(c.args[0].value, ast.Name) and c.args[0].value.id in rowvars]
     vals = [c for c in calls(fn, dotted='numpy.random.choice') if len(c.args) == 1 and isinstance(c.args[0], ast.Call) and isinstance(c.args[0].func, ast.Name) and c.args[0].func.id == 'list']
-    chk.expect(len(us) == 2 and len(vals) == 2, 'C20.5d', 'origin', fn.site(us[0]) if us else fn.site(), f'{len(us)} np.unique(feature[...]) domains; {len(vals)} draws from them', 'replacement values come from the feature\'s own observed values', 'replacement values must be drawn from np.unique of the same feature')
+    # origin: every value that is drawn comes (through sets / unions / per-label dictionaries) from np.unique of the feature being altered
+    tainted = set()
+    changed = True
+    while changed:
+        changed = False
+        for n in own_nodes(fn.node):
+            tg = None
+            if isinstance(n, ast.Assign) and len(n.targets) == 1:
+                tg = n.targets[0]
+            elif isinstance(n, ast.AugAssign):
+                tg = n.target
+            if tg is None:
+                continue
+            base = tg
+            while isinstance(base, (ast.Subscript, ast.Attribute)):
+                base = base.value
+            if not isinstance(base, ast.Name) or base.id in tainted:
+                continue
+            srcs = {x.id for x in ast.walk(n.value) if isinstance(x, ast.Name)}
+            if any(c in us for c in ast.walk(n.value)) or srcs & tainted:
+                tainted.add(base.id)
+                changed = True
+    draws_ok = bool(vals) and all({x.id for x in ast.walk(c.args[0]) if isinstance(x, ast.Name)} - {'list', 'sorted', 'tuple'} <= tainted and ({x.id for x in ast.walk(c.args[0]) if isinstance(x, ast.Name)} & tainted) for c in vals)
+    chk.expect(len(us) >= 1 and draws_ok, 'C20.5d', 'origin', fn.site(us[0]) if us else fn.site(), f'{len(us)} np.unique(feature[...]) domains; {len(vals)} draws from them', 'replacement values come from the feature\'s own observed values', 'replacement values must be drawn from np.unique of the same feature', soft=True)
     # missing: marker written
     mparam = [q for q in fn.params if q != 'self'][4] if len([q for q in fn.params if q != 'self']) > 4 else 'missing_val'
     mk = [w for w in writes if ast.unparse(w.value) == mparam]
@@ -335,7 +391,7 @@ def downsample(repo, chk):
     for n in own_nodes(fn.node):
         if isinstance(n, ast.Assign) and isinstance(n.targets[0], ast.Tuple) and 'np.unique' in ast.unparse(n.value) and len(n.targets[0].elts) == 2 and isinstance(n.targets[0].elts[1], ast.Name):
             cname = n.targets[0].elts[1].id
-    chk.expect(len(g) == 1 and term_of(fn, g[0].test, inline=False) == E(f'{np_} > min({cname})'), 'C20.6e', 'R14', fn.site(g[0]) if g else fn.site(), ast.unparse(g[0].test) if g else '', 'n larger than the minority class is rejected', 'n > min(counts) must be rejected')
+    chk.expect(len(g) == 1 and term_of(fn, g[0].test, inline=False) == E(f'{np_} > min({cname})'), 'C20.6e', 'R14', fn.site(g[0]) if g else fn.site(), ast.unparse(g[0].test) if g else '', 'n larger than the minority class is rejected', 'n > min(counts) must be rejected', soft=True)
 
 
 def _sibling_branches(par, a, b):
